@@ -9,8 +9,8 @@ Local Open Scope string_scope. Local Open Scope list_scope.
 
 (* the checker accepts only crates satisfying the declarative predicate [wf_crate] (Crate/Spec.v): every element
    of @graph has a string @id; @ids are unique; every non-web reference resolves; every File entity is in the
-   archive with the recorded checksum/size; every run value is represented; the actions of a step list as result
-   what that step produced and nothing else *)
+   archive with the recorded checksum/size; every run value is represented; the actions of a step are the records
+   of its jobs (what each consumed and produced) *)
 Theorem C34_checker_sound : forall g ar vs ss, crate_ok g ar vs ss = true -> wf_crate g ar vs ss.
 Proof. exact crate_ok_sound. Qed.
 
@@ -45,12 +45,15 @@ Theorem C34_value_file_in_archive : forall g ar inp p h s,
   exists y e, Entity g y e /\ HasType e "File" /\ In (y, h, s) ar.
 Proof. exact represented_file_in_archive. Qed.
 
-(* consistent at step level: whatever an action orchestrated for a step lists as result carries the value that
-   step produced (so the product of step s10 is never listed under step s1) *)
-Theorem C34_step_results_only : forall g ar vs ss, wf_crate g ar vs ss ->
-  forall v c aid a x, In v ss -> In c g -> IsControl c (sv_step v) -> PRef c "object" aid -> Entity g aid a ->
-    PRef a "result" x -> exists e, Entity g x e /\ ValOk g ar e x (sv_val v).
+(* consistent at step level: every action orchestrated for a step is the record of one of the step's jobs (its
+   object lists what the job consumed - and nothing else when all inputs are known -, its result lists only what
+   the job produced: the product of step s10 is never listed under step s1), and every job has such a record *)
+Theorem C34_step_actions_are_jobs : forall g ar vs ss, wf_crate g ar vs ss ->
+  forall v a, In v ss -> StepAction g (sv_step v) a -> exists j, In j (sv_jobs v) /\ JobOk g ar a j.
 Proof. exact wf_step_results. Qed.
+Theorem C34_step_jobs_recorded : forall g ar vs ss, wf_crate g ar vs ss ->
+  forall v j, In v ss -> In j (sv_jobs v) -> exists a, StepAction g (sv_step v) a /\ JobOk g ar a j.
+Proof. exact wf_step_jobs. Qed.
 
 (* non-vacuity: a miniature crate (one File input, one literal input, one File[] output, one Directory input)
    that the checker accepts — so [wf_crate] is satisfiable with every kind of value — and the same crate with a
@@ -79,8 +82,10 @@ Definition mini : graph :=
     JObj [("@id", JStr "g2"); ("@type", JStr "File"); ("sha1", JStr "g2")];
     JObj [("@id", JStr "wf.cwl#s1"); ("@type", JStr "HowToStep")];
     JObj [("@id", JStr "#c1"); ("@type", JStr "ControlAction"); ("instrument", ref "wf.cwl#s1"); ("object", JArr [ref "#a1"])];
-    JObj [("@id", JStr "#a1"); ("@type", JStr "CreateAction"); ("instrument", ref "wf.cwl#s1"); ("result", JArr [ref "g2"])] ].
-Definition mini_ss : list sv := [ SV "wf.cwl#s1" (VItem (IFile "g2" 3)) ].
+    JObj [("@id", JStr "#a1"); ("@type", JStr "CreateAction"); ("instrument", ref "wf.cwl#s1");
+          ("object", JArr [ref "f1"; ref "#pv"]); ("result", JArr [ref "g2"])] ].
+Definition mini_ss : list sv :=
+  [ SV "wf.cwl#s1" [Job [VItem (IFile "f1" 6); VItem (ILit ["True"; "true"])] true (Some (VItem (IFile "g2" 3)))] ].
 Definition mini_ar : list entry :=
   [("wf.cwl", "aa", 100%N); ("f1", "f1", 6%N); ("dd/", "-", 0%N); ("dd/sub/f2", "f2", 2%N); ("g2", "g2", 3%N)].
 Definition mini_vs : list rv :=
@@ -110,11 +115,25 @@ Example C34_mini_value_missing_rejected :
   crate_ok mini mini_ar (RV false "o" (VList [IFile "g2" 3; IFile "f1" 6]) :: mini_vs) mini_ss = false.
 Proof. vm_compute. reflexivity. Qed.
 
-(* a step's action that also lists the product of another step (the s1 / s10 confusion) is rejected *)
+(* a step's action that also lists the product of another step (the s1 / s10 confusion), an action that lacks a
+   consumed input, a job without any action: all rejected *)
 Example C34_mini_foreign_step_result_rejected :
   crate_ok (mini ++ [JObj [("@id", JStr "#c2"); ("@type", JStr "ControlAction"); ("instrument", ref "wf.cwl#s1"); ("object", JArr [ref "#a2"])];
-                     JObj [("@id", JStr "#a2"); ("@type", JStr "CreateAction"); ("result", JArr [ref "g2"; ref "f1"])]])
+                     JObj [("@id", JStr "#a2"); ("@type", JStr "CreateAction"); ("object", JArr [ref "f1"; ref "#pv"]);
+                           ("result", JArr [ref "g2"; ref "f1"])]])
            mini_ar mini_vs mini_ss = false.
+Proof. vm_compute. reflexivity. Qed.
+Example C34_mini_step_input_missing_rejected :
+  crate_ok mini mini_ar mini_vs
+    [ SV "wf.cwl#s1" [Job [VItem (IFile "f1" 6); VItem (ILit ["other"])] false (Some (VItem (IFile "g2" 3)))] ] = false /\
+  crate_ok mini mini_ar mini_vs
+    [ SV "wf.cwl#s1" [Job [VItem (IFile "f1" 6)] true None] ] = false /\
+  crate_ok mini mini_ar mini_vs
+    [ SV "wf.cwl#s1" [Job [VItem (IFile "f1" 6)] false None] ] = true.
+Proof. vm_compute. repeat split; reflexivity. Qed.
+Example C34_mini_job_without_action_rejected :
+  crate_ok mini mini_ar mini_vs
+    [ SV "wf.cwl#s1" [Job [VItem (IFile "f1" 6)] false None; Job [VItem (IFile "g2" 3)] false None] ] = false.
 Proof. vm_compute. reflexivity. Qed.
 
 Print Assumptions C34_checker_sound.
@@ -124,4 +143,5 @@ Print Assumptions C34_reach_exact.
 Print Assumptions C34_lookup_unique.
 Print Assumptions C34_file_present.
 Print Assumptions C34_value_file_in_archive.
-Print Assumptions C34_step_results_only.
+Print Assumptions C34_step_actions_are_jobs.
+Print Assumptions C34_step_jobs_recorded.
